@@ -48,7 +48,7 @@ def gen(rng, tier):
     picks = [rng.choice([x for x in mem if x[0] == f]) for f in fams] + [mem[rng.randrange(len(mem))] for _ in range(2 if tier == "quick" else 40)]
     for fam, m in picks:
         for d in range(0, 7):
-            for op in (["P", "C", "A0", "X0", "I0"] if tier == "quick" else ["P", "C", "A0", "X0", "X1", "I0", "D", "N", "RX"]):
+            for op in (["P", "C", "A0", "X0", "I0", "D"] if tier == "quick" else ["P", "C", "A0", "X0", "X1", "I0", "D", "N", "RX"]):
                 pre = rng.choice([[], ["P", "C", "A0"], ["P", "C", "A0", "N"]])
                 yield Case("bip44", [fam, m, "-", hx(seed), ",".join(pre + ["RR%d" % d, op])], "reimport-depth")
     # random histories
